@@ -208,6 +208,8 @@ enum PairClass {
     Generic,
     NearlyParallel,
     NearlyAntiparallel,
+    /// to = -lambda * from up to rounding (lambda not a power of two), optionally tilted by a tiny angle
+    AlmostAntiparallel,
 }
 
 /// A float pair (from, to) enclosing exactly the angle `delta` (to rounding of the cast), or pi - delta when `anti`.
@@ -236,7 +238,7 @@ fn near_pair<S: Dom>(t: &mut Tape, delta: f64, anti: bool, mu: S) -> ([S; 3], [S
 
 /// Direction pairs. Returns (from, to, class).
 fn gen_pair<S: Dom>(t: &mut Tape, cx: &mut Cx) -> ([S; 3], [S; 3], PairClass) {
-    let sel = t.below(10);
+    let sel = t.below(11);
     // vectors whose relevant partial sums of squares are all perfect squares, per 180-degree sub-branch
     const ANTI: [[i64; 3]; 12] = [
         [9, 12, 8],  // |x| > |z|, x^2+y^2 = 15^2, total 17^2
@@ -290,6 +292,26 @@ fn gen_pair<S: Dom>(t: &mut Tape, cx: &mut Cx) -> ([S; 3], [S; 3], PairClass) {
             let (f, g) = near_pair::<S>(t, delta, true, mu);
             (f, g, PairClass::NearlyAntiparallel)
         }
+        6 if !S::EXACT => {
+            // opposite up to rounding: to = -lambda * from with a random factor (the product is rounded, so the pair is
+            // opposite to within an ulp or so but not exactly), in two thirds of the cases tilted by delta, log-uniform
+            // from 2^-60 / 2^-30 up to ~1e-3 rad. Non-degenerate pairs like any other (finding F14).
+            cx.label("almost-antiparallel (to = -lambda*from rounded, tilt 0 .. 1e-3 rad)");
+            let lambda = t.range_f64(0.1, 8.0);
+            if t.below(3) == 0 {
+                let mut f: [S; 3] = if t.bool() { vk::gen_vec(t, 9) } else { let b = ANTI[t.below(ANTI.len())]; [S::i(b[0]), S::i(b[1]), S::i(b[2])] };
+                if rf::dot(&f, &f).f() < 1e-2 {
+                    f = [S::i(1), S::i(2), S::i(-3)];
+                }
+                let l: S = regime::cast(lambda);
+                (f, [-(f[0] * l), -(f[1] * l), -(f[2] * l)], PairClass::AlmostAntiparallel)
+            } else {
+                let e = t.int(10, if f32ish { 30 } else { 60 }) as i32;
+                let delta = (2.0f64).powi(-e) * (1.0 + t.unit_f64());
+                let (f, g) = near_pair::<S>(t, delta, true, regime::cast(lambda));
+                (f, g, PairClass::AlmostAntiparallel)
+            }
+        }
         _ => {
             if S::EXACT || t.bool() {
                 // from = L * R e_x, to = mu * R (cos th, sin th, 0): every radical in the computation is rational
@@ -335,26 +357,65 @@ fn from_to<S: Dom>(t: &mut Tape, cx: &mut Cx) -> CaseResult {
     check_close!(cx, S, norm2(&a), S::one(), 1.0, K, "rotation_from_to_3d returns a unit quaternion [from={:?} to={:?}]", from, to);
     let img = rotate_ref(&a, &from);
     // image of `from` is a positive multiple of `to`: cross = 0 and dot > 0; everything relative to |from||to|
-    let cr = rf::cross(&img, &to);
     let sc = fl * tl * 4.0;
-    // float conditioning: w = |f||t| + f.t and f x t carry an absolute rounding error ~eps |f||t|, so the direction of the
-    // image is off by ~eps / |f^ + t^| for nearly antiparallel pairs; when |f^ + t^|^2 <= 64 eps the branch decision of
-    // the 180-degree guard itself is rounding noise
+    // float conditioning of the documented (GLM) formula: w = |f||t| + f.t and f x t carry an absolute rounding error
+    // ~eps |f||t|, so the direction of the image is off by ~eps / |f^ + t^| for nearly antiparallel pairs; that much is
+    // granted outside the band below
     let mut cond = 1.0;
+    let mut in_band = false;
     let k = if S::EXACT {
         1.0
     } else {
         let u: Vec<f64> = (0..3).map(|i| from[i].f() / fl + to[i].f() / tl).collect();
         let un = (u[0] * u[0] + u[1] * u[1] + u[2] * u[2]).sqrt();
         let exactly_opposite = (0..3).all(|i| from[i].f() * tl == -to[i].f() * fl) || (0..3).all(|i| (from[i].f() / from.iter().map(|x| x.f().abs()).fold(0.0, f64::max)) == -(to[i].f() / to.iter().map(|x| x.f().abs()).fold(0.0, f64::max)));
-        if !exactly_opposite && un * un <= 64.0 * S::eps() {
-            discard!("precondition:opposite-within-8-sqrt-eps-but-not-exactly (|f||t| + f.t is rounding noise)");
+        // the band where the GLM formula breaks down: opposite to within 8 sqrt(eps). The exactly antiparallel class
+        // (power-of-two ratios: every intermediate is exact) is asserted strictly and never counted into the band.
+        in_band = class != PairClass::Antiparallel && un * un <= 64.0 * S::eps();
+        if in_band {
+            cx.label("F14 band: opposite to within 8 sqrt(eps), not an exact power-of-two multiple");
         }
-        cond = if exactly_opposite { 1.0 } else { (2.0 / un).max(1.0) };
-        (if class == PairClass::NearlyParallel { 32.0 } else if class == PairClass::NearlyAntiparallel { 64.0 } else { K }) * cond
+        // outside the band the conditioning 2/delta of the documented (from x to, |f||t| + f.t) construction is granted; inside
+        // the band that allowance is continued at its value on the band's edge (see `tol` below and `assumptions`)
+        cond = if exactly_opposite || in_band { 1.0 } else { (2.0 / un).max(1.0) };
+        (if class == PairClass::NearlyParallel { 8.0 } else if class == PairClass::NearlyAntiparallel { 16.0 } else { K }) * cond
     };
-    check_vec!(cx, S, cr, [S::zero(); 3], 0.0, k * sc, "q*from is parallel to `to` (cross product, relative to |from||to|) [from={:?} to={:?} q={:?}]", from, to, a);
-    check!(cx, rf::dot(&img, &to) > S::zero(), "q*from points the same way as `to`: dot = {:?} (from={:?}, to={:?}, q={:?}, q*from={:?})", rf::dot(&img, &to), from, to, a, img);
+    // alignment of an image with `to`: |image x to| <= k eps |from||to| * 4 and image . to > 0
+    // in the band: 8 sqrt(eps) -- what a cross-product construction with a half-turn shortcut can reach there (the shortcut
+    // is off by the tilt delta < sqrt(2 eps), the cross product by 2 eps / delta above it); the F14 defect (identity returned,
+    // image tens of degrees off or pointing away) is orders of magnitude above it
+    let tol = if in_band { 8.0 * S::eps().sqrt() * sc } else { k * S::eps() * sc };
+    let misaligned = |cx: &mut Cx, im: &[S; 3], what: &str| -> Option<String> {
+        let cr = rf::cross(im, &to);
+        let d = rf::dot(im, &to);
+        cx.count();
+        let worst = cr.iter().fold(0.0f64, |m, x| m.max(x.f().abs()));
+        let ok = if S::EXACT { cr.iter().all(|x| x.is_zero()) } else { worst <= tol };
+        if ok && d > S::zero() {
+            // (inside the F14 band the error of the unfixed formula is anything up to garbage: not a measure of the margin)
+            if tol > 0.0 && !in_band {
+                cx.note_err(worst / tol);
+            }
+            None
+        } else {
+            Some(format!("{} is not a positive multiple of `to`: |image x to| = {:e} (tolerance {:e}, relative to |from||to| = {:e}), image . to = {:?} [from={:?} to={:?} q(w,x,y,z)={:?} image={:?}]", what, worst, tol, fl * tl, d, from, to, a, im))
+        }
+    };
+    let mut f14 = false;
+    for (im, what) in [(&img, "q*from"), (&rf::matvec(&cm::Mat3::<S>::from(q).to_arr(), &from), "Mat3::from(q)*from")] {
+        if let Some(msg) = misaligned(cx, im, what) {
+            if in_band && cx.known("F14-from-to-almost-opposite") {
+                f14 = true;
+            } else {
+                fail!("{}", msg);
+            }
+        }
+    }
+    if f14 {
+        cx.label("F14 band: image not aligned with `to` (tolerated only while F14 is open)");
+    } else if in_band {
+        cx.label("F14 band: aligned");
+    }
     // vek's own application agrees
     check_vec!(cx, S, vk::a3(&(q * vk::v3(&from))), img, 0.0, K * fl * 4.0, "q * from (vek) = reference [from={:?} q={:?}]", from, a);
     // matrix flavours are the matrix of that quaternion
@@ -364,12 +425,9 @@ fn from_to<S: Dom>(t: &mut Tape, cx: &mut Cx) -> CaseResult {
     let m4 = cm::Mat4::<S>::from(q).to_arr();
     check_mat!(cx, S, cm::Mat4::<S>::rotation_from_to_3d(vk::v3(&from), vk::v3(&to)).to_arr(), m4, 1.0, K, "col Mat4::rotation_from_to_3d");
     check_mat!(cx, S, rm::Mat4::<S>::rotation_from_to_3d(vk::v3(&from), vk::v3(&to)).to_arr(), m4, 1.0, K, "row Mat4::rotation_from_to_3d");
-    // the matrix maps from onto to as well
-    let mi = rf::matvec(&m3, &from);
-    check_vec!(cx, S, rf::cross(&mi, &to), [S::zero(); 3], 0.0, k * sc, "matrix * from parallel to `to` [from={:?} to={:?}]", from, to);
-    check!(cx, rf::dot(&mi, &to) > S::zero(), "matrix * from points the same way as `to`");
     // the result depends on the two *directions* only: every operation commutes exactly with scaling by powers of two
-    if ea != 0 || eb != 0 {
+    // (in the F14 band the f32 result is decided by rounding noise, which one underflowed square may flip: f64 only there)
+    if (ea != 0 || eb != 0) && !(in_band && S::NAME == "f32") {
         let a0 = qa(Quaternion::<S>::rotation_from_to_3d(vk::v3(&from0), vk::v3(&to0)));
         for i in 0..4 {
             cx.count();
@@ -508,7 +566,7 @@ pub fn property() -> Property {
     let b = "unit quaternion (rational point of S^3) applied to Vec3/Vec4 = q v q* (reference) = Mat3/Mat4::from(q) (both layouts); w bit-identical; (pq)v = p(qv); matrix is a proper rotation";
     tape!("action-rat", b, 64, 30_000, 1_000_000, action::<Rat>);
     tape!("action-f64", b, 96, 20_000, 500_000, action::<f64>);
-    let c = "rotation_from_to_3d (quaternion, Mat3, Mat4, both layouts): unit, maps `from` onto a positive multiple of `to` (relative to |from||to|) for generic, parallel, exactly antiparallel (every 180-degree sub-branch), nearly parallel (angle down to 2^-45 / 2^-20) and nearly antiparallel (pi - delta, delta down to 8 sqrt(eps)) pairs, `from` and `to` scaled independently and exactly by 2^a, 2^b (result must not change)";
+    let c = "rotation_from_to_3d (quaternion, Mat3, Mat4, both layouts): unit, maps `from` onto a positive multiple of `to` (relative to |from||to|) for generic, parallel, exactly antiparallel (every 180-degree sub-branch), nearly parallel (angle down to 2^-45 / 2^-20), nearly antiparallel (pi - delta, delta down to 8 sqrt(eps)) and almost exactly opposite pairs (to = -lambda*from rounded, tilt 0 .. 1e-3 rad; finding F14), `from` and `to` scaled independently and exactly by 2^a, 2^b (result must not change)";
     tape!("from-to-rat", c, 80, 40_000, 1_000_000, from_to::<Rat>);
     tape!("from-to-f64", c, 128, 40_000, 1_000_000, from_to::<f64>);
     tape!("from-to-f32", c, 128, 40_000, 1_000_000, from_to::<f32>);
@@ -525,13 +583,14 @@ pub fn property() -> Property {
     tape!("conversions-sym", "conversions to/from Vec4, Vec3, (scalar, vector), from_xyzw, conjugate, identity are field-exact on opaque terms", 4, 2_000, 20_000, conversions);
     Property {
         id: "C05",
-        rule: "arbitrary quaternions with small rational/float components; unit quaternions from the rational parametrisation of S^3 (a quarter of them with the parameters scaled by 2^-k: next to +-1, +-i, +-j, +-k); direction pairs by class: exactly antiparallel (12 base vectors covering |x|>|z|, |x|<|z|, |x|=|z|, axis-aligned, scaled by independent rationals), parallel, generic constructed so that every square root is rational, random float pairs, nearly parallel and nearly antiparallel float pairs with a log-uniform enclosed angle, every pair additionally scaled by independent powers of two in half of the cases; angles in (-2pi,2pi) incl. log-uniform small ones and neighbours of pi and 2pi; regime checks: unit quaternions built without vek from (axis, angle) with angle regimes {small down to 2^-60 (f64) / 2^-30 (f32), next to a half turn, next to a full turn, next to a multiple of pi/2, many turns, ordinary} applied to vectors scaled by 2^k (|k| <= 200 / 24), non-unit quaternions scaled by 2^a (|a| <= 200 / 24 / 10); non-trivial = all four components non-zero and pq != qp (algebra/action), from has >= 2 non-zero components (from-to), |sin(angle/2)| > 8 sqrt(eps) (angle-axis), displacement |q*v - v| > 8 * tolerance and v without zero component (near-identity), all eight components non-zero (algebra-scale); distinct = distinct consumed tape prefix",
+        rule: "arbitrary quaternions with small rational/float components; unit quaternions from the rational parametrisation of S^3 (a quarter of them with the parameters scaled by 2^-k: next to +-1, +-i, +-j, +-k); direction pairs by class: exactly antiparallel (12 base vectors covering |x|>|z|, |x|<|z|, |x|=|z|, axis-aligned, scaled by independent rationals), parallel, generic constructed so that every square root is rational, random float pairs, nearly parallel and nearly antiparallel float pairs with a log-uniform enclosed angle, almost exactly opposite float pairs (to = -lambda*from rounded with a random lambda, tilted by 0 or by a log-uniform angle up to 1e-3 rad), every pair additionally scaled by independent powers of two in half of the cases; angles in (-2pi,2pi) incl. log-uniform small ones and neighbours of pi and 2pi; regime checks: unit quaternions built without vek from (axis, angle) with angle regimes {small down to 2^-60 (f64) / 2^-30 (f32), next to a half turn, next to a full turn, next to a multiple of pi/2, many turns, ordinary} applied to vectors scaled by 2^k (|k| <= 200 / 24), non-unit quaternions scaled by 2^a (|a| <= 200 / 24 / 10); non-trivial = all four components non-zero and pq != qp (algebra/action), from has >= 2 non-zero components (from-to), |sin(angle/2)| > 8 sqrt(eps) (angle-axis), displacement |q*v - v| > 8 * tolerance and v without zero component (near-identity), all eight components non-zero (algebra-scale); distinct = distinct consumed tape prefix",
         assumptions: &[
             "rustc and the proptest runner/shrinker are trusted",
             "oracle: Hamilton product expanded over the i,j,k multiplication table (vkit::refmath::hamilton), rotation = q (0,v) q*",
             "near-identity oracle: q (0,v) q* = v + 2w(u x v) + 2u x (u x v) and Rodrigues with 1 - cos = 2 sin^2(angle/2), evaluated in f64 on the exact components handed to vek (for f32 the oracle is far more precise than the result; for f64 its own error is ~2 eps |v|); the comparison tolerance is 32 eps |v| = the rounding of two Hamilton products on a result of size |v| - a displacement below that is not resolvable by ANY implementation returning v + d in working precision, so rotation angles below ~32 eps are only checked through the matrix entries (off-diagonal entries relative to |xyz|), through rotation_3d's components (relative to |sin(angle/2)|) and through the exact scaling relations",
             "exact scaling relations (q*(2^k v), products / inverse / magnitude / normalized of 2^k q, rotation_from_to_3d(2^a from, 2^b to), rotation_3d(angle, 2^j axis)) are compared bit for bit; exponent ranges are chosen so that no square or product leaves the normal range (f32: vectors 2^+-24, from/to 2^+-16; f64: 2^+-200); where a tiny random component can still underflow a few subnormal units (resp. one rounding flip) are tolerated. Overflow / underflow beyond those ranges is excluded (any implementation that squares lengths suffers it)",
-            "from-to in floats: w = |f||t| + f.t and f x t carry an absolute rounding error ~eps |f||t|, so the direction of the image is allowed eps * K * 2/|f^ + t^| for nearly antiparallel pairs; pairs that are opposite to within |f^ + t^|^2 <= 64 eps without being exactly opposite are excluded (discarded): there |f||t| + f.t has no significant bit left and the 180-degree guard `w < eps |f||t|` is decided by rounding noise (the GLM algorithm vek documents cannot do better; a different algorithm could, the property text does not demand one)",
+            "from-to in floats, outside the band below: w = |f||t| + f.t and f x t carry an absolute rounding error ~eps |f||t| in the documented (GLM) formula, so the direction of the image is allowed eps * K * 2/|f^ + t^| for nearly antiparallel pairs",
+            "from-to, band |f^ + t^|^2 <= 64 eps (opposite to within 8 sqrt(eps)) other than the exactly antiparallel class with power-of-two ratios: the image must be a positive multiple of `to` within 8 sqrt(eps) |from||to| * 4. That is the continuation of the 2/delta allowance granted to nearly antiparallel pairs outside the band, i.e. the accuracy the documented (from x to, |f||t| + f.t) construction with its half-turn shortcut can reach; a uniformly eps-accurate from-to would need a different construction (half turn composed with the residual small rotation) and is not demanded. The defect F14-from-to-almost-opposite (|f||t| + f.t computed with cancellation, so rounding noise decided the 180-degree guard: identity returned, image tens of degrees off) is orders of magnitude above this tolerance; it is tolerated only while listed as open in KNOWN_FINDINGS.json. Pairs of that band are CONSTRUCTED (to = -lambda*from rounded, tilt 0 or log-uniform up to 1e-3 rad), ~9 % of the float cases",
             "angle-axis: angle = 2 acos(w) turns an error eps in w into eps / sin(angle/2) in the angle and into sqrt(eps) at worst (w next to +-1), so the rebuilt rotation is compared at 64 eps / max(|sin(angle/2)|, sqrt(eps)); in particular for rotation angles below ~2 sqrt(eps) (w rounds to 1) the extracted angle is 0 and only 'identity to within sqrt(eps)' is asserted - the relative accuracy of a tiny extracted angle is NOT asserted (acos(w) cannot provide it; the vector part could)",
             "non-unit quaternions applied to vectors are outside the property (docs: 'assuming the quaternion is normalized'); only unit quaternions (to rounding) are applied",
         ],
